@@ -3,8 +3,10 @@ package main
 // C16: the real GitLab importer (bridge/gitlab behind core.Bridge.ImportAll / ImportAllSince) is run against an
 // in-process simulated GitLab REST API (net/http/httptest) that serves generated tracker histories. One case =
 // 1..4 import rounds over a growing tracker, plus fault experiments: the rounds before round k replayed on a
-// fresh repository, round k with one request answered 403 (go-gitlab retries 5xx for ~12 s, so faults are 4xx),
-// then round k again without failure. Observed per run: the ImportResult stream, whether the cursor was stored,
+// fresh repository, round k with one request failing - answered 403 (go-gitlab retries 5xx for ~12 s, so status
+// faults are 4xx), or its connection closed without an answer (a transport failure: go-gitlab then returns no response
+// at all) -, then round k again without failure. The simulated GitLab sends X-Total / X-Total-Pages or, as GitLab does
+// for collections of more than 10000 items, only X-Page / X-Per-Page / X-Next-Page. Observed per run: the ImportResult stream, whether the cursor was stored,
 // the identities created, the operations appended to each bug (kind, gitlab-id, author, time, payload, result of
 // the real Validate()), and the set of requests the simulated GitLab received.
 //
@@ -62,7 +64,7 @@ type gNote struct {
 }
 type gLabel struct {
 	ID   int    `json:"id"`
-	A    int    `json:"a"` // 0: the user was deleted ("user": null)
+	A    int    `json:"a"`   // 0: the user was deleted ("user": null)
 	Act  int    `json:"act"` // 0 add, 1 remove, 2 something else
 	Name string `json:"name"`
 	C    int64  `json:"c"`
@@ -98,8 +100,10 @@ type c16Input struct {
 	Snaps      []gTracker `json:"snaps"`
 	Rounds     []gRound   `json:"rounds"`
 	FaultRound int        `json:"fault_round"`
-	FaultIdx   []int      `json:"fault_idx,omitempty"` // indices into the sorted request list of the clean run of that round
-	FaultAll   int        `json:"fault_all,omitempty"` // >0: every request of that round, at most this many
+	FaultIdx   []int      `json:"fault_idx,omitempty"`  // indices into the sorted request list of the clean run of that round
+	FaultAll   int        `json:"fault_all,omitempty"`  // >0: every request of that round, at most this many
+	FaultMode  string     `json:"fault_mode,omitempty"` // "" or "403": the request is answered 403; "drop": its connection is closed
+	NoTotals   bool       `json:"no_totals,omitempty"`  // the server does not send X-Total and X-Total-Pages
 	Gen        string     `json:"gen,omitempty"`
 }
 
@@ -149,6 +153,8 @@ type c16Sim struct {
 	log       []string
 	fault     string
 	faultDone bool
+	drop      bool // the failing request gets no answer: its connection is closed
+	noTotals  bool
 	srv       *httptest.Server
 }
 
@@ -161,7 +167,7 @@ func (s *c16Sim) userJSON(id int) interface{} {
 	return map[string]interface{}{"id": id, "username": fmt.Sprintf("u%d", id), "name": fmt.Sprintf("user %d", id)}
 }
 
-func c16Paginate(w http.ResponseWriter, n, page, per int) (lo, hi int) {
+func (s *c16Sim) paginate(w http.ResponseWriter, n, page, per int) (lo, hi int) {
 	if page < 1 {
 		page = 1
 	}
@@ -179,8 +185,10 @@ func c16Paginate(w http.ResponseWriter, n, page, per int) (lo, hi int) {
 	}
 	w.Header().Set("X-Page", strconv.Itoa(page))
 	w.Header().Set("X-Per-Page", strconv.Itoa(per))
-	w.Header().Set("X-Total", strconv.Itoa(n))
-	w.Header().Set("X-Total-Pages", strconv.Itoa(total))
+	if !s.noTotals {
+		w.Header().Set("X-Total", strconv.Itoa(n))
+		w.Header().Set("X-Total-Pages", strconv.Itoa(total))
+	}
 	if page < total {
 		w.Header().Set("X-Next-Page", strconv.Itoa(page+1))
 	}
@@ -230,6 +238,14 @@ func (s *c16Sim) ServeHTTP(w http.ResponseWriter, r *http.Request) {
 	w.Header().Set("Content-Type", "application/json")
 	if key == s.fault && !s.faultDone {
 		s.faultDone = true
+		if s.drop {
+			if hj, ok := w.(http.Hijacker); ok {
+				if conn, _, err := hj.Hijack(); err == nil {
+					_ = conn.Close()
+					return
+				}
+			}
+		}
 		w.WriteHeader(403)
 		_, _ = w.Write([]byte(`{"message":"403 Forbidden (injected)"}`))
 		return
@@ -263,7 +279,7 @@ func (s *c16Sim) ServeHTTP(w http.ResponseWriter, r *http.Request) {
 				sel = append(sel, is)
 			}
 		}
-		lo, hi := c16Paginate(w, len(sel), page, s.page)
+		lo, hi := s.paginate(w, len(sel), page, s.page)
 		arr := []interface{}{}
 		for _, is := range sel[lo:hi] {
 			arr = append(arr, map[string]interface{}{
@@ -287,20 +303,20 @@ func (s *c16Sim) ServeHTTP(w http.ResponseWriter, r *http.Request) {
 		arr := []interface{}{}
 		switch key[0] {
 		case 'N':
-			lo, hi := c16Paginate(w, len(is.Notes), page, s.page)
+			lo, hi := s.paginate(w, len(is.Notes), page, s.page)
 			for _, n := range is.Notes[lo:hi] {
 				arr = append(arr, map[string]interface{}{"id": n.ID, "body": n.Body, "system": n.Sys, "author": s.userJSON(n.A),
 					"created_at": c16Time(n.C), "updated_at": c16Time(n.U), "noteable_id": 1000 + is.IID, "noteable_type": "Issue", "noteable_iid": is.IID})
 			}
 		case 'L':
-			lo, hi := c16Paginate(w, len(is.Labels), page, s.page)
+			lo, hi := s.paginate(w, len(is.Labels), page, s.page)
 			for _, l := range is.Labels[lo:hi] {
 				act := []string{"add", "remove", "touch"}[l.Act%3]
 				arr = append(arr, map[string]interface{}{"id": l.ID, "action": act, "created_at": c16Time(l.C), "user": s.userJSON(l.A),
 					"resource_type": "Issue", "resource_id": 1000 + is.IID, "label": map[string]interface{}{"id": 7, "name": l.Name}})
 			}
 		case 'S':
-			lo, hi := c16Paginate(w, len(is.States), page, s.page)
+			lo, hi := s.paginate(w, len(is.States), page, s.page)
 			for _, st := range is.States[lo:hi] {
 				state := []string{"closed", "reopened", "merged"}[st.St%3]
 				arr = append(arr, map[string]interface{}{"id": st.ID, "state": state, "created_at": c16Time(st.C), "user": s.userJSON(st.A),
@@ -315,7 +331,7 @@ func (s *c16Sim) ServeHTTP(w http.ResponseWriter, r *http.Request) {
 // ---------------------------------------------------------------- observations
 
 type c16Op struct {
-	K      string `json:"k"` // create comment edit title status label other
+	K      string `json:"k"`   // create comment edit title status label other
 	Gid    int    `json:"gid"` // -1: no gitlab-id metadata
 	Author int    `json:"author"`
 	Time   int64  `json:"time"`
@@ -381,13 +397,18 @@ func c16Sweep() {
 func c16NewEnv(in *c16Input) *c16Env {
 	c16SweepOnce.Do(c16Sweep)
 	e := &c16Env{in: in, bugOps: map[string][]string{}, bugIID: map[string]int{}, idents: map[string]int{}, stable: true}
-	e.sim = &c16Sim{page: in.Page}
+	e.sim = &c16Sim{page: in.Page, drop: in.FaultMode == "drop", noTotals: in.NoTotals}
 	e.sim.srv = httptest.NewUnstartedServer(e.sim)
 	sim := e.sim
 	e.sim.srv.Config.ConnContext = func(ctx context.Context, _ net.Conn) context.Context {
 		sim.mu.Lock()
 		defer sim.mu.Unlock()
 		return context.WithValue(ctx, c16CtxKey{}, sim.epoch)
+	}
+	if e.sim.drop {
+		// one connection per request: net/http silently sends a GET again when a connection that was already used
+		// is closed before the answer, which would hide the failure from the importer
+		e.sim.srv.Config.SetKeepAlivesEnabled(false)
 	}
 	e.sim.srv.Start()
 	must := func(err error) {
@@ -815,6 +836,9 @@ func c16InputOK(in *c16Input) string {
 	if in.Page < 1 || len(in.Snaps) == 0 || len(in.Rounds) == 0 || len(in.Rounds) > 8 {
 		return "bad shape"
 	}
+	if in.FaultMode != "" && in.FaultMode != "403" && in.FaultMode != "drop" {
+		return "bad fault mode"
+	}
 	for _, rd := range in.Rounds {
 		if rd.Snap < 0 || rd.Snap >= len(in.Snaps) || rd.Now < 5 {
 			return "bad round"
@@ -830,6 +854,9 @@ func c16InputOK(in *c16Input) string {
 		for _, i := range t.Issues {
 			if seen[i.IID] || i.IID <= 0 {
 				return "duplicate iid"
+			}
+			if i.A <= 0 {
+				return "issue without author" // GitLab hands the issues of a deleted user over to its ghost user
 			}
 			seen[i.IID] = true
 			if !c16TextOK(i.Title) || !c16TextOK(i.Desc) {
@@ -931,7 +958,7 @@ func (c16Driver) Run(raw json.RawMessage) Case {
 	for _, f := range faults {
 		fs = append(fs, fmt.Sprintf("mkfexp %d (%s) (%s) (%s)", f.Round, c16CoqReq(f.Req), c16CoqRun(f.Fault), c16CoqRun(f.Recover)))
 	}
-	term := fmt.Sprintf("mkcase %d %s %s %s %s %s", in.Page, coqList(snaps), coqList(rounds), coqList(cl), coqList(fs), coqBool(stable))
+	term := fmt.Sprintf("mkcase %d %s %s %s %s %s %s", in.Page, coqList(snaps), coqList(rounds), coqList(cl), coqList(fs), coqBool(!in.NoTotals), coqBool(stable))
 
 	tags := c16Tags(&in, clean, faults)
 	if !stable {
@@ -1049,6 +1076,28 @@ func c16Tags(in *c16Input, clean []c16Run, faults []c16FaultObs) []string {
 	if in.Gen != "" {
 		add("gen:" + in.Gen)
 	}
+	if in.NoTotals {
+		add("in:no-total-pages")
+	}
+	if in.FaultMode == "drop" && len(faults) > 0 {
+		add("fault-mode:drop")
+	}
+	invisible := func(s string) bool { // nothing left for text.Empty
+		for _, r := range s {
+			if !unicode.IsControl(r) && !unicode.IsSpace(r) && unicode.IsGraphic(r) {
+				return false
+			}
+		}
+		return true
+	}
+	control := func(s string) bool {
+		for _, r := range s {
+			if unicode.IsControl(r) {
+				return true
+			}
+		}
+		return false
+	}
 	hostile := func(s string) bool {
 		for _, r := range s {
 			if r < 32 || r > 126 {
@@ -1065,10 +1114,16 @@ func c16Tags(in *c16Input, clean []c16Run, faults []c16FaultObs) []string {
 			if hostile(u.Name) || hostile(u.Login) {
 				add("in:hostile-user")
 			}
+			if control(u.Name) || control(u.Login) || control(u.Email) {
+				add("in:user-with-control-character")
+			}
 		}
 		for _, i := range t.Issues {
 			if hostile(i.Title) || hostile(i.Desc) {
 				add("in:hostile-text")
+			}
+			if invisible(i.Title) {
+				add("in:invisible-title")
 			}
 			if len(i.Notes) > in.Page || len(i.Labels) > in.Page || len(i.States) > in.Page || len(t.Issues) > in.Page {
 				add("in:paged")
@@ -1081,6 +1136,9 @@ func c16Tags(in *c16Input, clean []c16Run, faults []c16FaultObs) []string {
 				}
 				if hostile(l.Name) {
 					add("in:hostile-text")
+				}
+				if invisible(l.Name) {
+					add("in:invisible-label")
 				}
 			}
 			for _, s := range i.States {
@@ -1104,6 +1162,9 @@ func c16Tags(in *c16Input, clean []c16Run, faults []c16FaultObs) []string {
 				}
 				if n.Sys && strings.HasPrefix(n.Body, "changed title from") && !strings.Contains(n.Body, "** to **") {
 					add("in:title-note-without-separator")
+				}
+				if n.Sys && strings.HasPrefix(n.Body, "changed title from") && control(n.Body) {
+					add("in:title-note-with-control-character")
 				}
 				if n.U != n.C {
 					add("in:edited-note")
@@ -1236,15 +1297,25 @@ func (g *c16Gen) tick() int64 {
 	return g.clock
 }
 func (g *c16Gen) someUser(allowNull bool) int {
-	if allowNull && g.quirks && g.r.Chance(1, 12) {
+	if allowNull && g.quirks && g.r.Chance(1, 8) {
 		return 0
 	}
 	return g.tr.Users[g.r.Intn(len(g.tr.Users))].ID
 }
+
+// liveUser: a user that exists and has a visible name or login (whatever else these texts hold): the author of an issue
 func (g *c16Gen) liveUser() int {
+	visible := func(s string) bool {
+		for _, r := range s {
+			if !unicode.IsControl(r) && !unicode.IsSpace(r) && unicode.IsGraphic(r) {
+				return true
+			}
+		}
+		return false
+	}
 	var xs []int
 	for _, u := range g.tr.Users {
-		if !u.Gone && strings.TrimSpace(u.Name) != "" && !strings.ContainsAny(u.Name+u.Login+u.Email, "\x00\x1b\x7f\n\r\t\u0085") {
+		if !u.Gone && (visible(u.Name) || visible(u.Login)) {
 			xs = append(xs, u.ID)
 		}
 	}
@@ -1309,8 +1380,15 @@ func (g *c16Gen) mutate() {
 		is.U = n.U
 	case 3: // title change
 		old := is.Title
-		is.Title = "T" + g.word()
+		is.Title = g.word()
+		if !g.hostile || g.r.Chance(3, 4) {
+			is.Title = "T" + is.Title
+		}
 		body := fmt.Sprintf("changed title from **%s** to **%s**", old, is.Title)
+		if g.r.Chance(1, 3) {
+			// the diff markup of GitLab
+			body = fmt.Sprintf("changed title from **{-%s-}** to **{+%s+}**", old, is.Title)
+		}
 		if g.quirks && g.r.Chance(1, 10) {
 			body = "changed title from " + old
 		}
@@ -1434,8 +1512,8 @@ func genC16(r *Rand, flavour int, tier string) c16Input {
 	if g.quirks && r.Chance(1, 3) {
 		g.tr.Users = append(g.tr.Users, gUser{ID: 19, Name: "gone", Login: "gone", Gone: true})
 	}
-	if g.hostile && r.Chance(1, 3) {
-		g.tr.Users = append(g.tr.Users, gUser{ID: 18, Name: g.text(0, 3), Login: g.text(0, 2), Email: "x@example.org"})
+	if g.hostile && r.Chance(1, 2) {
+		g.tr.Users = append(g.tr.Users, gUser{ID: 18, Name: g.text(0, 4), Login: g.text(0, 3), Email: "x@example.org"})
 	}
 	in := c16Input{Page: []int{1, 2, 3, 20}[r.Intn(4)], Gen: names[flavour]}
 	g.newIssue()
@@ -1458,6 +1536,10 @@ func genC16(r *Rand, flavour int, tier string) c16Input {
 		now := g.clock + int64(r.Range(0, 3))
 		in.Rounds = append(in.Rounds, gRound{Snap: len(in.Snaps) - 1, Full: i > 0 && r.Chance(1, 5), Now: now})
 		g.clock = now + int64(r.Range(0, 2))
+	}
+	in.NoTotals = r.Chance(1, 4)
+	if r.Chance(1, 2) {
+		in.FaultMode = "drop"
 	}
 	in.FaultRound = r.Intn(nr)
 	if r.Chance(1, 4) {
